@@ -83,3 +83,57 @@ func Structural() []string {
 	}
 	return out
 }
+
+// NonASCII is the stream "non-ASCII inside every lexical element of a code region, followed on the
+// same line by an error position": programs and the three kinds of template code regions; 2-, 3- and
+// 4-byte runes (and invalid UTF-8 inside comments, where the lexer accepts it). The position oracle
+// then catches any element whose column accounting is in bytes instead of runes.
+func NonASCII() []Source {
+	runes := []string{"é", "世", "😀", "é世😀", "\xff", "\xc3", "\xe4\xb8"}
+	type elem struct {
+		name string
+		mk   func(r string) string
+		any  bool // accepts invalid UTF-8 and non-letters
+	}
+	elems := []elem{
+		{"block-comment", func(r string) string { return "/* " + r + " */ 1" }, true},
+		{"block-comment-2", func(r string) string { return "/*" + r + "*/ /* a" + r + " */ 1" }, true},
+		{"string", func(r string) string { return "\"a" + r + "\"" }, false},
+		{"raw-string", func(r string) string { return "`" + r + "b`" }, false},
+		{"rune", func(r string) string { return "'" + r + "'" }, false},
+		{"ident", func(r string) string { return "x" + r }, false},
+		{"string-escape", func(r string) string { return "\"\\t" + r + "\\u00e9\"" }, false},
+	}
+	errs := []string{" + undefinedZ", " )", " + 08", " \"\\q\"", " + 'ab'"}
+	var out []Source
+	add := func(name string, format int, src string) {
+		out = append(out, Source{Name: "nonascii-" + name, Format: format, Data: []byte(src)})
+	}
+	for _, e := range elems {
+		for _, r := range runes {
+			valid := r == "é" || r == "世" || r == "😀" || r == "é世😀"
+			if !valid && !e.any {
+				continue
+			}
+			if e.name == "rune" && len([]rune(r)) != 1 {
+				continue
+			}
+			if e.name == "ident" && (r == "😀" || r == "é世😀") {
+				continue
+			}
+			el := e.mk(r)
+			for _, er := range errs {
+				add(e.name, -1, "package main\nfunc main() { _ = "+el+er+" }\n")
+				add(e.name, -1, "package main\nvar a = "+el+er+"\n")
+				add(e.name, 1, "{{ "+el+er+" }}")
+				add(e.name, 1, "<b>é</b>{% var a = "+el+er+" %}")
+				add(e.name, 5, "{%% a := "+el+er+" %%}")
+				add(e.name, 3, "x{{ "+el+" }}{{ "+el+er+" }}")
+			}
+			// a line comment, then the error on the next line after another element
+			add(e.name+"-line-comment", -1, "package main\nfunc main() { // "+r+"\n\t_ = "+el+" + undefinedZ }\n")
+			add(e.name+"-line-comment", 1, "{%% // "+r+"\n a := "+el+" + undefinedZ %%}")
+		}
+	}
+	return out
+}
